@@ -538,3 +538,132 @@ Proof.
   match type of H with (if ?s then _ else _) = _ => destruct s end;
   try assumption; apply ar32_refines in H; exact H.
 Qed.
+
+(* ====================================================================================== *)
+(* The code (wrapping reading, [st = false]) vs FreeType on the WRAP-FREE DOMAIN:          *)
+(* [wrap_free_*] = "no intermediate i32 result of the kernel wraps", decided by the        *)
+(* trapping evaluation [st = true].                                                        *)
+(* ====================================================================================== *)
+Definition wrap_free_round (mode thr ph per d : Z) : Prop := sk_rs_round true mode thr ph per d <> None.
+Definition wrap_free_muldiv_noround (a b c : Z) : Prop := sk_mul_div_no_round true a b c <> None.
+
+Lemma rs_round_wrapfree_eq mode thr ph per d : 0 <= mode <= 7 -> i32 thr -> i32 ph -> i32 per -> i32 d ->
+  wrap_free_round mode thr ph per d ->
+  sk_rs_round false mode thr ph per d = Some (ft_rs_round mode thr ph per d).
+Proof.
+  intros Hm Ht Hp Hq Hd Hw. unfold wrap_free_round in Hw.
+  destruct (sk_rs_round true mode thr ph per d) as [v|] eqn:E; [|contradiction].
+  rewrite (rs_round_refines _ _ _ _ _ _ Hm E). f_equal.
+  apply (round_state_eq mode thr ph per d v); assumption.
+Qed.
+
+Lemma muldiv_noround_wrapfree_mod32 a b c : i32 a -> i32 b -> i32 c -> wrap_free_muldiv_noround a b c ->
+  sk_mul_div_no_round false a b c = Some (wrap_s 32 (ft_muldiv_no_round a b c)).
+Proof.
+  intros Ha Hb Hc Hw. unfold wrap_free_muldiv_noround in Hw.
+  destruct (sk_mul_div_no_round true a b c) as [v|] eqn:E; [|contradiction].
+  rewrite (muldiv_noround_refines _ _ _ _ E). f_equal.
+  apply ftmuldiv_noround_mod32; assumption.
+Qed.
+
+Lemma muldiv_noround_wrapfree_eq a b c : i32 a -> i32 b -> i32 c -> wrap_free_muldiv_noround a b c ->
+  i32 (ft_muldiv_no_round a b c) ->
+  sk_mul_div_no_round false a b c = Some (ft_muldiv_no_round a b c).
+Proof.
+  intros Ha Hb Hc Hw Hr. rewrite muldiv_noround_wrapfree_mod32 by assumption.
+  f_equal. apply wrap_s32_id. exact Hr.
+Qed.
+
+(* explicit numeric descriptions of (parts of) the wrap-free domain *)
+Lemma muldiv_noround_wrapfree_range a b c : i32 a -> i32 b -> i32 c ->
+  a <> -2147483648 -> b <> -2147483648 -> c <> -2147483648 ->
+  (c <> 0 -> Z.abs a * Z.abs b / Z.abs c <= 2147483647) -> wrap_free_muldiv_noround a b c.
+Proof.
+  intros Ha Hb Hc Na Nb Nc Hq. unfold wrap_free_muldiv_noround.
+  destruct (muldiv_noround_total a b c Ha Hb Hc Na Nb Nc Hq) as [v Hv]. rewrite Hv. discriminate.
+Qed.
+
+Lemma round_grid_modes_wrapfree mode thr ph per d : 0 <= mode <= 4 ->
+  -2147483520 <= d <= 2147483520 -> wrap_free_round mode thr ph per d.
+Proof.
+  intros Hm Hd. unfold wrap_free_round.
+  destruct (round_grid_modes_total mode thr ph per d Hm Hd) as [v Hv]. rewrite Hv. discriminate.
+Qed.
+
+Lemma round_off_wrapfree thr ph per d : wrap_free_round 5 thr ph per d.
+Proof. unfold wrap_free_round, sk_rs_round. discriminate. Qed.
+
+Lemma round_super_wrapfree thr ph per d : small thr -> small ph -> small per -> small d ->
+  wrap_free_round 6 thr ph per d.
+Proof.
+  intros Ht Hp Hq Hd. unfold wrap_free_round.
+  destruct (round_super_total thr ph per d Ht Hp Hq Hd) as [v Hv]. rewrite Hv. discriminate.
+Qed.
+
+Lemma round_super45_wrapfree thr ph per d : small thr -> small ph -> small per -> small d -> per <> 0 ->
+  wrap_free_round 7 thr ph per d.
+Proof.
+  intros Ht Hp Hq Hd Hz. unfold wrap_free_round.
+  destruct (round_super45_total thr ph per d Ht Hp Hq Hd Hz) as [v Hv]. rewrite Hv. discriminate.
+Qed.
+
+(* closed forms for the code on explicit ranges *)
+Lemma round_grid_modes_code_agree mode thr ph per d : 0 <= mode <= 4 -> i32 thr -> i32 ph -> i32 per ->
+  -2147483520 <= d <= 2147483520 ->
+  sk_rs_round false mode thr ph per d = Some (ft_rs_round mode thr ph per d).
+Proof.
+  intros Hm Ht Hp Hq Hd.
+  apply rs_round_wrapfree_eq; [lia | assumption | assumption | assumption | unfold i32; lia |].
+  apply round_grid_modes_wrapfree; assumption.
+Qed.
+
+Lemma round_off_code_agree thr ph per d : i32 d ->
+  sk_rs_round false 5 thr ph per d = Some (ft_rs_round 5 thr ph per d).
+Proof. intros Hd. rewrite <- (round_off_eq thr ph per d Hd). reflexivity. Qed.
+
+Lemma round_super_code_agree thr ph per d : small thr -> small ph -> small per -> small d ->
+  sk_rs_round false 6 thr ph per d = Some (ft_rs_round 6 thr ph per d).
+Proof.
+  intros Ht Hp Hq Hd. apply rs_round_wrapfree_eq; [lia | | | | |]; auto using small_i32.
+  apply round_super_wrapfree; assumption.
+Qed.
+
+Lemma round_super45_code_agree thr ph per d : small thr -> small ph -> small per -> small d -> per <> 0 ->
+  sk_rs_round false 7 thr ph per d = Some (ft_rs_round 7 thr ph per d).
+Proof.
+  intros Ht Hp Hq Hd Hz. apply rs_round_wrapfree_eq; [lia | | | | |]; auto using small_i32.
+  apply round_super45_wrapfree; assumption.
+Qed.
+
+Lemma muldiv_noround_code_agree a b c : i32 a -> i32 b -> i32 c ->
+  a <> -2147483648 -> b <> -2147483648 -> c <> -2147483648 ->
+  (c <> 0 -> Z.abs a * Z.abs b / Z.abs c <= 2147483647) ->
+  sk_mul_div_no_round false a b c = Some (wrap_s 32 (ft_muldiv_no_round a b c)).
+Proof.
+  intros Ha Hb Hc Na Nb Nc Hq. apply muldiv_noround_wrapfree_mod32; try assumption.
+  apply muldiv_noround_wrapfree_range; assumption.
+Qed.
+
+(* the wrapping kernels never trap, except the Super45 division *)
+Lemma muldiv_noround_never_traps a b c : sk_mul_div_no_round false a b c <> None.
+Proof.
+  unfold sk_mul_div_no_round, ar32. cbv zeta.
+  destruct (a <? 0), (b <? 0), (c <? 0); cbn [obind];
+  match goal with |- (if ?s then _ else _) <> None => destruct s; discriminate end.
+Qed.
+
+Lemma round_mode0_code_agree thr ph per d : i32 thr -> i32 ph -> i32 per -> -2147483520 <= d <= 2147483520 ->
+  sk_rs_round false 0 thr ph per d = Some (ft_round_to_grid 0 d).
+Proof. apply (round_grid_modes_code_agree 0). lia. Qed.
+Lemma round_mode1_code_agree thr ph per d : i32 thr -> i32 ph -> i32 per -> -2147483520 <= d <= 2147483520 ->
+  sk_rs_round false 1 thr ph per d = Some (ft_round_to_half_grid 0 d).
+Proof. apply (round_grid_modes_code_agree 1). lia. Qed.
+Lemma round_mode2_code_agree thr ph per d : i32 thr -> i32 ph -> i32 per -> -2147483520 <= d <= 2147483520 ->
+  sk_rs_round false 2 thr ph per d = Some (ft_round_to_double_grid 0 d).
+Proof. apply (round_grid_modes_code_agree 2). lia. Qed.
+Lemma round_mode3_code_agree thr ph per d : i32 thr -> i32 ph -> i32 per -> -2147483520 <= d <= 2147483520 ->
+  sk_rs_round false 3 thr ph per d = Some (ft_round_down_to_grid 0 d).
+Proof. apply (round_grid_modes_code_agree 3). lia. Qed.
+Lemma round_mode4_code_agree thr ph per d : i32 thr -> i32 ph -> i32 per -> -2147483520 <= d <= 2147483520 ->
+  sk_rs_round false 4 thr ph per d = Some (ft_round_up_to_grid 0 d).
+Proof. apply (round_grid_modes_code_agree 4). lia. Qed.
